@@ -255,6 +255,34 @@ def landlord_index(fnorm, n, recv):
     return None
 
 
+def landlord_calls(m):
+    """[(call, cfg node, normal form of i)] for the calls of method m on self.landlords[i] that go to the server
+    (everything except the local accessors and abort)."""
+    out = []
+    cands = [c for c in calls_in_func(m) if isinstance(c.func, ast.Attribute)
+             and c.func.attr not in LOCAL_LANDLORD_CALLS and c.func.attr not in REGS
+             and isinstance(c.func.value, (ast.Name, ast.Subscript))]
+    if not cands:
+        return out
+    cfg = m.cfg()
+    fnorm = FlowNorm(m)
+    for c in cands:
+        node = [n for n in cfg.nodes if any(x is c for x in node_calls(n))]
+        if not node:
+            continue
+        ix = landlord_index(fnorm, node[0], c.func.value)
+        if ix is not None:
+            out.append((c, node[0], ix))
+    return out
+
+
+def strip_regs(e):
+    """d.addErrback(..).addCallback(..) -> d  (addCallback & co. return their receiver)."""
+    while isinstance(e, ast.Call) and isinstance(e.func, ast.Attribute) and e.func.attr in REGS:
+        e = e.func.value
+    return e
+
+
 def parent_map(fn):
     pm = {}
     for x in func_own_nodes(fn, into_lambda=True):
@@ -825,7 +853,10 @@ def run(ctx: Context):
         p = first_positional_params(tb)[0]
         okloop = False
         tnorm = N(tb)
+        tflow = FlowNorm(tb)
+        tcfg = tb.cfg()
         for lp in loops_over(tb, p):
+            aborts = []
             for st in lp.body:
                 for c in ast.walk(st):
                     if isinstance(c, ast.Call) and call_tail(c) == "abort" and isinstance(c.func, ast.Attribute):
@@ -833,6 +864,33 @@ def run(ctx: Context):
                         if isinstance(rv, ast.Subscript) and attr_path(rv.value) == "self.buckets" \
                                 and tnorm.norm(rv.slice) == lp.target.id:
                             okloop = True
+                            aborts.append(c)
+            head = [n for n in tcfg.nodes if n.kind == "iter" and n.ast is lp]
+            if not aborts or not head:
+                continue
+            head = head[0]
+            t = lp.target.id
+
+            # every iteration reaches the abort() unless the share number has no bucket (any more)
+            def tr(n, lab, nxt, st, _h=head, _t=t, _ab=aborts):
+                if st == 0:
+                    return 1 if (n is _h and lab == "iter") else None
+                if lab == "exc" or infeasible(n, lab) or any(x is c for x in node_calls(n) for c in _ab):
+                    return None
+                if n.kind == "test" and isinstance(lab, tuple):
+                    f = tflow.edge_fact(n, lab)
+                    if f and f[0] == "not in" and f[1] == _t and f[2] == "self.buckets":
+                        return None
+                return 1
+            visited, parent = explore(tcfg, 0, tr, start=head)
+            r.count(len(visited))
+            for (nid, st) in sorted(visited):
+                if st == 1 and (tcfg.nodes[nid] is head or tcfg.nodes[nid].kind == "exit"):
+                    w = witness(tcfg, parent, (nid, st))
+                    r.violation(tb, tb.loc(lp), "abort_some_buckets can skip self.buckets[%s].abort() for a requested "
+                                "share number that HAS a bucket (the only admissible skip is '%s not in self.buckets'): "
+                                "the allocation of a failed upload stays on the server (path: %s)" % (t, t, w.brief()), w)
+                    break
         r.require(okloop, tb, tb.loc(), "abort_some_buckets no longer calls self.buckets[n].abort() for each "
                   "requested share number")
         wp = idx.func("immutable.layout:WriteBucketProxy.abort")
@@ -1265,3 +1323,116 @@ def run(ctx: Context):
                                     "success callback (addCallback) of the Deferred of %s on every path: the share "
                                     "is finalised without waiting for / regardless of the outcome of the final "
                                     "write" % (short(cl), wname))
+
+    # -- 10. every write Deferred of a push stage is an element of the gathered list ----
+    with ctx.rule("C06.10", "E7", "push stages: the Deferred of every remote call on a landlord (made directly or by a "
+                  "send_* helper) is put, on every path, into the list handed to self._gather_responses - otherwise "
+                  "the UploadUnhappinessError raised by _remove_shareholder is never observed and done() runs "
+                  "before the write finished", expected=7) as r:
+        enc = idx.cls(ENC)
+        writers = {}
+        for m in enc.methods.values():
+            lc = landlord_calls(m)
+            if lc:
+                writers[m.name] = lc
+
+        def cfg_node_of(fi, e):
+            for n in fi.cfg().nodes:
+                if n.kind in ("entry", "exit", "raise"):
+                    continue
+                for ex in node_exprs(n):
+                    if any(y is e for y in own_nodes(ex)):
+                        return n
+            raise AnalysisError("no CFG node evaluates %s in %s" % (src(fi, e), short(fi)))
+
+        def is_gather(c, L=None):
+            if call_name(c) != "self._gather_responses":
+                return False
+            a0 = arg(c, 0, "dl")
+            return L is None or (isinstance(a0, ast.Name) and a0.id == L)
+
+        for sname in STAGES:
+            sf = idx.func(ENC + "." + sname)
+            cfg = sf.cfg()
+            pm = parent_map(sf)
+            sources = [(c, "self.landlords[%s].%s(..)" % (ix, c.func.attr)) for (c, _n, ix) in writers.get(sname, [])]
+            for c in calls_in_func(sf):
+                nm = call_name(c) or ""
+                if nm.startswith("self.") and nm.count(".") == 1 and nm[5:] in writers and nm[5:] not in STAGES:
+                    sources.append((c, nm + "(..)"))
+            if not sources:
+                raise AnchorVanished("%s makes no remote call on a landlord (neither directly nor through a helper)"
+                                     % short(sf))
+            r.count(len(cfg.nodes))
+            for (c, what) in sources:
+                r.site(sf, c, "write Deferred of %s" % what)
+                _chain, outer = chained_regs(pm, c)
+                p = pm.get(id(outer))
+                lists = []
+                if isinstance(p, ast.Call) and isinstance(p.func, ast.Attribute) and p.func.attr == "append" \
+                        and isinstance(p.func.value, ast.Name) and p.args and p.args[0] is outer:
+                    lists.append((cfg_node_of(sf, p), p.func.value.id))
+                elif isinstance(p, ast.List) or (isinstance(p, ast.ListComp) and p.elt is outer):
+                    q = pm.get(id(p))
+                    if isinstance(q, ast.Call) and is_gather(q) and q.args and q.args[0] is p:
+                        continue
+                    if isinstance(q, ast.Assign) and q.value is p and len(q.targets) == 1 \
+                            and isinstance(q.targets[0], ast.Name):
+                        lists.append((cfg_node_of(sf, p), q.targets[0].id))
+                    else:
+                        raise AnalysisError("%s: the list holding the Deferred of %s is used in a context that is "
+                                            "not modelled: %s" % (short(sf), what, src(sf, q)))
+                elif isinstance(p, ast.Assign) and p.value is outer and len(p.targets) == 1 \
+                        and isinstance(p.targets[0], ast.Name):
+                    v = p.targets[0].id
+                    start = cfg_node_of(sf, outer)
+
+                    def append_of(n, _v=v):
+                        for a in node_calls(n):
+                            if isinstance(a.func, ast.Attribute) and a.func.attr == "append" and a.args \
+                                    and isinstance(a.func.value, ast.Name):
+                                b = strip_regs(a.args[0])
+                                if isinstance(b, ast.Name) and b.id == _v:
+                                    return a.func.value.id
+                        return None
+                    lost = must_pass(cfg, start, lambda l: l != "exc", lambda n: append_of(n) is not None,
+                                     lambda n, _s=start, _v=v: n.kind == "exit" or (
+                                         n is not _s and n.kind in ("stmt", "iter", "with", "except")
+                                         and _v in node_stores(n)))
+                    if lost:
+                        w = lost[0]
+                        r.violation(sf, sf.loc(c), "%s: the Deferred of %s (in %s) is not appended to the list of "
+                                    "responses on some path: %s does not wait for this write, and when it fails and "
+                                    "_remove_shareholder raises UploadUnhappinessError nobody observes it - the upload "
+                                    "goes on to done() below the happiness threshold (path: %s)"
+                                    % (short(sf), what, v, short(sf), w.brief()), w)
+                        continue
+                    for n in cfg.nodes:
+                        if n.kind == "stmt" and append_of(n) is not None:
+                            lists.append((n, append_of(n)))
+                elif isinstance(p, ast.Expr):
+                    r.violation(sf, sf.loc(c), "%s: the Deferred of %s is dropped (statement value discarded) instead "
+                                "of being gathered: its failure / the UploadUnhappinessError of _remove_shareholder is "
+                                "never observed" % (short(sf), what))
+                    continue
+                else:
+                    raise AnalysisError("%s: the Deferred of %s is used in a context that is not modelled: %s" % (
+                        short(sf), what, src(sf, p)))
+                for (A, L) in lists:
+                    gate = lambda n, _L=L: any(is_gather(x, _L) for x in node_calls(n))
+
+                    def kill(n, _L=L, _A=A, _g=gate):
+                        if n is _A or _g(n) or n.kind not in ("stmt", "iter", "with", "except"):
+                            return False
+                        st = node_stores(n)
+                        if _L in st or (_L + "[]") in st:
+                            return True
+                        return any(isinstance(x.func, ast.Attribute) and x.func.attr in ("pop", "remove", "clear")
+                                   and isinstance(x.func.value, ast.Name) and x.func.value.id == _L
+                                   for x in node_calls(n))
+                    for w in must_pass(cfg, A, lambda l: l != "exc", gate, lambda n: n.kind == "exit" or kill(n)):
+                        r.violation(sf, sf.loc(c), "%s: the list %s that holds the Deferred of %s is re-bound / emptied "
+                                    "or never handed to self._gather_responses on some path: the stage does not wait "
+                                    "for this write nor see the UploadUnhappinessError of its removal (path: %s)"
+                                    % (short(sf), L, what, w.brief()), w)
+                        break
